@@ -158,6 +158,9 @@ TABLE = {
         ("scanner-differs", AG, "        if j < n and group[j] == group[i]: continue\n        xij = x[i:j]\n        if drop_na:\n            xij = xij[~is_na_numba(xij)]",
          "        if j < n and group[j] == group[i]: continue\n        xij = x[i:j+0]\n        if drop_na:\n            xij = xij[~is_na_numba(xij)]", V, "SIB-8"),
         ("no-datetime-na", AG, "    if isinstance(x, (types.NPDatetime, types.NPTimedelta)):\n        return lambda x: np.isnat(x)", "    pass", V, "SIB-9"),
+        ("mode-kernel-without-diagonal", AG, "                    if j == i or xg[j] == xg[i]:", "                    if xg[j] == xg[i]:", V, "SIB-8"),
+        ("mode-kernel-counts-from-one-silent", AG, "            ng = np.full(len(xg), 0)\n            for i in range(len(xg)):\n                for j in range(len(xg)):\n                    # Count each element for itself too, like\n                    # statistics.mode does, even if NaN or NaT.\n                    if j == i or xg[j] == xg[i]:",
+         "            ng = np.full(len(xg), 1)\n            for i in range(len(xg)):\n                for j in range(len(xg)):\n                    if j != i and xg[j] == xg[i]:", S, None),
         ("numba-admits-every-integer-width", AG, "        x.dtype == np.int64)", "        np.issubdtype(x.dtype, np.integer))", V, "SIB-8"),
         ("numba-admits-every-float-width", AG, "        x.dtype == np.float64 or", "        np.issubdtype(x.dtype, np.floating) or", V, "SIB-8"),
         ("numba-eligibility-as-dtype-set-silent", AG, "        x.dtype == np.float64 or\n        x.dtype == np.int64)", "        x.dtype in (np.float64, np.int64))", S, None),
